@@ -161,6 +161,19 @@ CHECKS["C19"] = dict(
    note="Group nodes have at most one failing sub-task; direct-task flavour is covered through the same result path (.result).",
    design="6/C19", technique=TECH)
 
+CHECKS["C18"] = dict(
+   text=("Workflow.tla: executions of one task body for several workflows in one process (Start / Step / Finish, executor per "
+         "execution): SameNthValue, NoMixing; the executor cached per Task object (pinned commit) is kept as expected "
+         "counterexample. A real task body issues generated sequences of random / time / uuid / sub-task operations through "
+         "task.wf; the harness plays the runner over generated re-execution histories (retries, crash in the middle of the body "
+         "+ recovery re-run, fresh process image, several workflows interleaved sequentially, and concurrently in threads under "
+         "the deterministic scheduler with a preemption point at every source line of the workflow modules: every schedule with "
+         "<= 2 preemptions for small bodies, breadth-first + seeded schedules for larger ones) on both state backends; "
+         "WorkflowTrace.tla evaluates SameNthValue, NoMixing, RecordsPerWorkflow, SubtaskOncePerCall in every execution."),
+   note="Time values are excluded from NoMixing (equal wall-clock base times are legitimate). A fresh process image is a new app + "
+        "Task objects over the same store, not a new OS process.",
+   design="6/C18", technique=TECH)
+
 NOT_YET = {}
 
 def main() -> None:
